@@ -28,12 +28,12 @@ func (funcResults FuncResults) String() string {
 }
 
 func (funcResults FuncResults) Concat(funcResults2 FuncResults) (finalFuncResults FuncResults) {
-	if len(finalFuncResults) == len(funcResults2) {
+	if len(funcResults) == len(funcResults2) {
 		for i, results := range funcResults2 {
 			funcResults[i] = slices.Concat(funcResults[i], results)
 		}
 	}
-	return finalFuncResults
+	return funcResults
 }
 
 // TypeAndValues
